@@ -5,6 +5,7 @@ import Tw.Proofs.SnapMgrSys
 import Tw.Proofs.SnapMgrInst
 import Tw.Proofs.SnapChain
 import Tw.Proofs.SnapMgrC
+import Tw.Proofs.SnapBound
 
 /-!
 # C13 — client and server snapshot state never diverge silently
@@ -241,7 +242,27 @@ theorem sender_panics_only_on_buffer_overflow_partial (objSize : Nat → Option 
     (evs : List (EvB Tw.Snap.Snap (List Item))) (hev : ∀ e, e ∈ evs → EvOk size e) :
     (∃ r, SysB.run (execOps objSize refGlue) execBuild {} evs = .ok r) ∨
     ((∃ s, SysB.run (execOps objSize refGlue) execBuild {} evs = .panic s) ∧ Oversize objSize) :=
-  runB_no_panic ht refGlue evs {} (invB_init size) hev
+  runB_no_panic ht refGlue (Q := fun _ => True) trivial evs {} (invB_init size _) hev
+    (fun e _ => by cases e with
+      | sendItems t items => intro _ _ _ _ _ _; trivial
+      | other e => trivial)
+
+/-- **No panic at all within a size budget (partial only by that budget).**  The same executable
+model and application-level hypotheses, plus a budget per snapshot: UUID types among a fixed list
+`U`, at most `N` items, at most `M` data integers, with `5·(3 + 4·(|U|+N) + 4·|U| + M) ≤ 65536`
+(e.g. 8 UUID types, 200 items, 8000 integers).  Then **no history panics**: not the builder, not
+`Delta::create`, not `Delta::write`, not the glue's 64 KiB buffer, not `delta_chunks`, not
+`Storage`, not the receiver, not the `Manager` — for any `i32` ticks (increasing or not), any
+acknowledgements (forged ones included), any loss, duplication and reordering, either sender glue.
+The bound comes from `Delta::write` emitting at most `3 + |a| + 3·|b| + data(b)` integers of at most
+five bytes each, and a snapshot of the builder chain having at most `|U| + N` items. -/
+theorem exchange_never_panics_within_budget_partial (objSize : Nat → Option Nat)
+    (size : Tw.Snap.TypeId → Nat → Nat) (ht : TableOk objSize size) (refGlue : Bool)
+    (U : List Int) (N M : Nat) (hk : 5 * (3 + 4 * (U.length + N) + (4 * U.length + M)) ≤ 65536)
+    (evs : List (EvB Tw.Snap.Snap (List Item))) (hev : ∀ e, e ∈ evs → EvOk size e)
+    (hbud : ∀ e, e ∈ evs → EvBudget U N M e) :
+    ∃ r, SysB.run (execOps objSize refGlue) execBuild {} evs = .ok r :=
+  runB_never_panics ht refGlue U N M hk evs hev hbud
 
 /-- **C13 over one executable model.**  Snapshot layer of `Model/Snap.lean` over plain values
 (`execOps`), builder with `recycle`, free list, glue buffer, either sender glue, the C12 receiver,
@@ -321,6 +342,18 @@ theorem recycled_builder_chain_never_refuses {size : Tw.Snap.TypeId → Nat → 
     Tw.Snap.SizesAgree a.snap.raw b.snap.raw ∧
       ∃ d, Tw.Snap.createDelta a.snap.raw b.snap.raw = some d :=
   Tw.Snap.chain_create h0 h1
+
+-- non-vacuity of the budget: 8 UUID types, 200 items, 8000 data integers per snapshot
+example : 5 * (3 + 4 * (8 + 200) + (4 * 8 + 8000)) ≤ 65536 := by decide
+example : Budget [1, 2, 3] 200 8000 [(.uuid 2, 7, [1, 2, 3]), (.ordinal 5, 0, [4, 5, 6])] :=
+  { uuids := by
+      intro it hit u hu
+      simp only [List.mem_cons, List.not_mem_nil, or_false] at hit
+      rcases hit with rfl | rfl
+      · injection hu with hu; subst hu; decide
+      · cases hu
+    count := by decide
+    data := by decide }
 
 -- non-vacuity: the 0.6 object-size table with any size function that extends it satisfies `TableOk`
 example : TableOk (fun t => (Tw.Gen.Snap.objSize_tw06.find? (·.1 == t)).map (·.2))
